@@ -209,22 +209,24 @@ def concrete_of(v):
 
 
 def _seq_const(e):
-    """z3 Seq(Int) literal -> list of ints or None"""
-    if z3.is_app(e):
-        k = e.decl().kind()
-        if k == z3.Z3_OP_SEQ_EMPTY:
-            return []
-        if k == z3.Z3_OP_SEQ_UNIT:
-            a = e.arg(0)
-            if z3.is_int_value(a):
-                return [a.as_long()]
+    """z3 Seq(Int) literal -> list of ints or None (iterative: literals can be deeply nested)"""
+    out = []
+    stack = [e]
+    while stack:
+        x = stack.pop()
+        if not z3.is_app(x):
             return None
-        if k == z3.Z3_OP_SEQ_CONCAT:
-            out = []
-            for i in range(e.num_args()):
-                r = _seq_const(e.arg(i))
-                if r is None:
-                    return None
-                out.extend(r)
-            return out
-    return None
+        k = x.decl().kind()
+        if k == z3.Z3_OP_SEQ_EMPTY:
+            continue
+        if k == z3.Z3_OP_SEQ_UNIT:
+            a = x.arg(0)
+            if not z3.is_int_value(a):
+                return None
+            out.append(a.as_long())
+        elif k == z3.Z3_OP_SEQ_CONCAT:
+            for i in range(x.num_args() - 1, -1, -1):
+                stack.append(x.arg(i))
+        else:
+            return None
+    return out
